@@ -316,10 +316,16 @@ def batch_shrink(P, case, out, budget_s=120, rounds=30):
 
 
 # ----------------------------------------------------------------------------------------- the check
-def run_check(P, tier, seed, replay=None):
-    """P: property module (see harness/cXX.py).  Implements DESIGN.md section 5."""
+LAST_EVIDENCE = {}
+
+
+def run_check(P, tier, seed, replay=None, report_as=None):
+    """P: property module (see harness/cXX.py).  Implements DESIGN.md section 5.
+    report_as: id of the property this module supports (a supporting check reports its verdict under that property's id and
+    writes its evidence under evidence/support/; harness/main.py merges a summary into the property's own evidence)."""
     t0 = time.time()
     pid = P.ID
+    rid = report_as or pid
     os.makedirs(f"{ROOT}/evidence", exist_ok=True)
     os.makedirs(f"{ROOT}/replay", exist_ok=True)
     rng = random.Random(seed)
@@ -407,7 +413,7 @@ def run_check(P, tier, seed, replay=None):
     lines = []
     for k in known:
         if k['id'] in known_hits:
-            lines.append(f"KNOWN-FINDING: property={pid} {k['id']}: {k['what']} ({len(known_hits[k['id']])} failing inputs in class '{k.get('covers')}')")
+            lines.append(f"KNOWN-FINDING: property={rid} {k['id']}: {k['what']} ({len(known_hits[k['id']])} failing inputs in class '{k.get('covers')}')")
     exit_code = 0
     replay_path = None
     if violations:
@@ -416,17 +422,17 @@ def run_check(P, tier, seed, replay=None):
         if hasattr(P, 'shrink_candidates') and not replay and eval_ok:
             c, co = batch_shrink(P, c, co)
         replay_path = f"{ROOT}/replay/{pid}-{chash(c)}.json"
-        json.dump({'property': pid, 'input': c, 'impl_output': co,
+        json.dump({'property': rid, 'module': pid.lower(), 'input': c, 'impl_output': co,
                    'failed': 'spec_ok evaluated to false on the implementation output',
                    'other_failing_inputs': len(violations) - 1, 'broken': broken}, open(replay_path, 'w'), indent=1)
-        lines.append(f"VIOLATION property={pid} replay={replay_path}")
+        lines.append(f"VIOLATION property={rid} replay={replay_path}")
         exit_code = 1
     elif broken:
         replay_path = f"{ROOT}/replay/{pid}-unproved-{chash(broken)}.json"
-        json.dump({'property': pid, 'no_longer_checks': broken,
+        json.dump({'property': rid, 'module': pid.lower(), 'no_longer_checks': broken,
                    'searched': {'cases': len(cases), 'spec_failures_in_known_classes': sum(len(v) for v in known_hits.values())}},
                   open(replay_path, 'w'), indent=1)
-        lines.append(f"VIOLATION property={pid} replay={replay_path} no-failing-input-found")
+        lines.append(f"VIOLATION property={rid} replay={replay_path} no-failing-input-found")
         exit_code = 1
 
     # ---- evidence
@@ -462,11 +468,16 @@ def run_check(P, tier, seed, replay=None):
         'wall_s': round(time.time() - t0, 2),
         'violations': len(violations) + (1 if (broken and not violations) else 0),
     }
-    json.dump(ev, open(f"{ROOT}/evidence/{pid}.json", 'w'), indent=1)
+    LAST_EVIDENCE[pid] = ev
+    if report_as:
+        os.makedirs(f"{ROOT}/evidence/support", exist_ok=True)
+        json.dump(ev, open(f"{ROOT}/evidence/support/{pid}-for-{rid}.json", 'w'), indent=1)
+    else:
+        json.dump(ev, open(f"{ROOT}/evidence/{pid}.json", 'w'), indent=1)
     for l in lines:
         print(l)
     if exit_code == 0:
-        print(f"OK property={pid} tier={tier} theorems={len(pa['theorems'])} obligations={n_obl} cases={len(cases)} "
+        print(f"OK property={rid}{' supporting=' + pid if report_as else ''} tier={tier} theorems={len(pa['theorems'])} obligations={n_obl} cases={len(cases)} "
               f"nontrivial={len(nontrivial)} wall={ev['wall_s']}s")
     else:
         for b in broken:
